@@ -775,6 +775,27 @@ def section_custom_kits():
         probe("D custom {}".format(case), CustomStructure, rec)
         probe("D customchild {}".format(case), CustomChild, rec)
         probe("D custom again {}".format(case), CustomStructure, rec)
+    # a concrete part with concrete subclasses: subclasses are tried first
+    class FamilyPart(AbstractPart, Entry):
+        cutter = Restriction.BsaI
+        signature = ("NNNN", "NNNN")
+
+    class FamilyChildA(FamilyPart):
+        signature = ("AAAA", "NNNN")
+
+    class FamilyChildB(FamilyPart):
+        signature = ("NNNN", "CCCC")
+
+    class FamilyGrandChild(FamilyChildA):
+        signature = ("AAAA", "CCCC")
+
+    for case, (start, end) in enumerate([("AAAA", "CCCC"), ("AAAA", "GGGG"), ("TTTT", "CCCC"), ("TTTT", "GGGG"), ("aaaa", "cccc")]):
+        seq = "GGTCTCA" + start + rand_dna(rng, 12, "AT") + end + "TGAGACC" + rand_dna(rng, 6, "AT")
+        rec = CircularRecord(Seq(seq), "family{}".format(case)) >> rng.randint(0, 50)
+        for cls in (FamilyPart, FamilyChildA, FamilyChildB, FamilyGrandChild):
+            call("D family {} {}".format(case, cls.__name__), lambda: cls.characterize(rec), lambda e: "{} {}".format(type(e).__name__, e.record is rec))
+    call("D family junk", lambda: FamilyPart.characterize(CircularRecord(Seq("ATATATATAT"), "junk")), lambda e: type(e).__name__)
+
     emit("D regex cache", CustomStructure._get_regex() is CustomStructure._get_regex(), CustomChild._get_regex() is CustomStructure._get_regex(), CustomChild._get_regex().pattern, CustomStructure._get_regex().pattern)
 
 
@@ -993,6 +1014,10 @@ def section_embedded(registries):
 
     # hooks of the embedded registry
     class LoggingRegistry(YTKRegistry):
+        # NB: registries with the same ``_file`` are equal, and share their
+        # cached data, so a different spelling of the file name is needed
+        _file = "./ytk.tar.gz"
+
         def __init__(self):
             self.log = []
 
@@ -1013,12 +1038,16 @@ def section_embedded(registries):
     emit("F logging order", logging_reg.log[:9], len(logging_reg.log))
 
     class StrippingRegistry(YTKRegistry):
+        _file = "././ytk.tar.gz"
+
         def _load_name(self, record):
             if record.id == "pYTK004":
                 del record.features[:]
             return record.name
 
     call("F stripping", lambda: StrippingRegistry()["pYTK001"], d_item)
+    shared = YTKRegistry()
+    emit("F shared cache", shared["pYTK001"] is registries["ytk"]["pYTK001"], logging_reg["pYTK001"] is registries["ytk"]["pYTK001"], logging_reg == shared, len(logging_reg))
 
     class AbstractlessRegistry(registry_base.EmbeddedRegistry):
         _module = YTKRegistry._module
@@ -1311,7 +1340,8 @@ def section_registry_assemblies(registries):
         ytk.YTKPart6(mods["pYTK074.gb"]), ytk.YTKPart7(mods["pYTK086.gb"]), ytk.YTKPart8b(mods["pYTK092.gb"]),
     ]
     result = call("J reference", lambda: ytk.YTKPart8a(vector).assemble(*typed), d_short)
-    emit("J reference check", len(result) == len(expected), str(result.seq) in str(expected.seq) * 2)
+    if not failed(result):
+        emit("J reference check", len(result) == len(expected), str(result.seq) in str(expected.seq) * 2)
 
 
 # --- Section K: errors and helpers ------------------------------------------
